@@ -243,3 +243,80 @@ func init() {
 		t.close(false)
 	}
 }
+
+func init() {
+	// live-c06burst <connections> <messages> <out>: no hooks, no callback recording (nothing serialises the
+	// writer goroutines): every connection fires body-dependent requests at full speed; afterwards the i-th
+	// request and the i-th frame received are paired for spec/Trace_Burst.tla
+	cmds["live-c06burst"] = func(a []string) {
+		nconn, nmsg := atoi(a[0]), atoi(a[1])
+		l := startLive(liveOpts{})
+		l.rec.mu.Lock()
+		l.rec.evs = nil
+		l.rec.mu.Unlock()
+		r := newRand(616)
+		type sess struct {
+			t    *term
+			sent [][]byte
+		}
+		var ss []*sess
+		for c := 0; c < nconn; c++ {
+			ver := c % 2
+			phone := randPhone(r, ver)
+			for k := range phone {
+				phone[k] = byte(r.Intn(10)<<4 | r.Intn(10))
+			}
+			phone[len(phone)-1] = byte(c/10<<4 | c%10)
+			ss = append(ss, &sess{t: l.dial(phone, ver)})
+		}
+		service_VerifSetHookNil()
+		var wg sync.WaitGroup
+		start := make(chan struct{})
+		for _, s := range ss {
+			wg.Add(1)
+			go func(s *sess, seed int64) {
+				defer wg.Done()
+				rr := rand.New(rand.NewSource(seed))
+				burstMode = true
+				frames := make([][]byte, nmsg)
+				for i := range frames {
+					for {
+						id, body := convMessage(rr, s.t)
+						if id == 0x0102 && s.t.ver == 1 && (len(body) < 36 || len(body) < 36+int(body[0])) { // unanswered by design: not in the burst
+							continue
+						}
+						frames[i] = s.t.frame(id, body)
+						break
+					}
+				}
+				<-start
+				for i, f := range frames {
+					s.t.conn.Write(f)
+					s.sent = append(s.sent, f)
+					if i%40 == 39 {
+						s.t.waitRecv(int64(i-30), 10*time.Second)
+					}
+				}
+				s.t.waitRecv(int64(nmsg), 15*time.Second)
+			}(s, r.Int63())
+		}
+		close(start)
+		wg.Wait()
+		out := newND(a[2])
+		defer out.close()
+		for ci, s := range ss {
+			var recv [][]byte
+			for len(s.t.recvCh) > 0 {
+				recv = append(recv, <-s.t.recvCh)
+			}
+			for i, f := range s.sent {
+				rv := B{}
+				if i < len(recv) {
+					rv = recv[i]
+				}
+				out.put(map[string]any{"c": ci, "i": i + 1, "sent": B(f), "recv": rv, "nrecv": len(recv), "nsent": len(s.sent)})
+			}
+			s.t.conn.Close()
+		}
+	}
+}
